@@ -519,7 +519,11 @@ static void reply(const char *status)
     char *b, hdr[96];
     int hl;
 
-    fflush(stdout);
+    /* Only what the daemon itself has flushed counts as written to the server channel during a step: its
+     * stdout is fully buffered here (a memfd) exactly as it is on the pipe or socket to the ircd, so a
+     * message it forgets to flush stays invisible, as it would in production, until something else flushes. */
+    if (!strncmp(status, "EXIT", 4) || !strcmp(status, "TEARDOWN"))
+        fflush(stdout);
     fstat(out_fd, &st);
     n = st.st_size - out_pos;
     b = malloc(n + 1);
